@@ -458,6 +458,7 @@ func runC04(c *Ctx) {
 	for i := 0; i < c.N/4000+2; i++ {
 		gcChurn(c, r, i)
 	}
+	redisCounterWindow(c)
 	for i := 0; i < c.N/100+5; i++ {
 		redisSchedRound(c, r, i)
 	}
@@ -708,6 +709,27 @@ func redisSchedRound(c *Ctx, r *Rng, round int) {
 	}
 	storeOp(c, "st.dump", map[string]string{})
 	storeOp(c, "st.totals", map[string]string{"inst": "0"})
+}
+
+// redisCounterWindow: the fixed schedules of finding D26. A put's membership transaction has gone through and its INCR
+// has not been sent yet; a delete of the same peer on another connection runs both of its round trips (HDEL, DECR) in
+// between. The state at that point is the `mid` of the observation; both operations then finish.
+func redisCounterWindow(c *Ctx) {
+	for _, fam := range []string{"v4", "v6"} {
+		for _, role := range [][2]string{{"ps", "ds"}, {"pl", "dl"}} {
+			storeOp(c, "st.reset", map[string]string{"n": "1", "kind": "redis", "instances": "1"})
+			storeOp(c, "st.clock", map[string]string{"t": "1700000000000000000"})
+			pk := strings.Repeat("02", 20) + "1ae1" + "0a000001"
+			if fam == "v6" {
+				pk = strings.Repeat("02", 20) + "1ae1" + "20010db8000000000000000000000001"
+			}
+			ih := strings.Repeat("01", 20)
+			storeOp(c, "st.redis_sched", map[string]string{"ih": ih, "progs": role[0] + ":" + pk + "|" + role[1] + ":" + pk, "sched": "0,1,1"})
+			c.Kind("redis-sched-counter-window")
+			storeOp(c, "st.dump", map[string]string{})
+			storeOp(c, "st.totals", map[string]string{"inst": "0"})
+		}
+	}
 }
 
 // redisGcStorm: three tracker instances on one Redis. A few swarms hold peers whose last announce is old. Then, truly
